@@ -38,13 +38,13 @@ Section Gate.
 
     Theorem gate_sync_reject n a k w x w1 :
       debug (wst w) = true ->
-      run_pres n (c_pres c) a k (dbg false w) = Done (inr x) w1 ->
+      run_pres n (c_pres c) a k None (dbg false w) = Done (inr x) w1 ->
       I n (run lf c a k) w = Done (inr x) (dbg true w1).
     Proof.
       intros Hd Hp. rewrite sync_head by exact Hd. unfold tail2.
       apply run_body_seq_raise. unfold stmt2.
       erewrite finally_done.
-      2:{ unfold s_for. eapply loop_reject with (getv := l_validator) (geta := l_args) (getk := l_kwargs); try reflexivity. exact Hp. }
+      2:{ unfold s_for. eapply loop_reject with (getv := l_validator) (geta := l_args) (getk := l_kwargs) (gete := fun _ => None); try reflexivity. exact Hp. }
       cbn beta iota.
       erewrite interp_bind_done.
       2:{ erewrite interp_in_handler_done by apply sync_fin. reflexivity. }
@@ -53,13 +53,13 @@ Section Gate.
 
     Theorem gate_sync_accept n a k w w1 :
       debug (wst w) = true ->
-      run_pres n (c_pres c) a k (dbg false w) = Done (inl tt) w1 ->
+      run_pres n (c_pres c) a k None (dbg false w) = Done (inl tt) w1 ->
       exists e1, l_args e1 = a /\ l_kwargs e1 = k /\
         I n (run lf c a k) w = I n (run_body (tail3 lf c) e1 VNone) (dbg true w1).
     Proof.
       intros Hd Hp. rewrite sync_head by exact Hd. unfold tail2.
-      pose proof (@loop_accept ftab env value set_validator l_validator l_args l_kwargs
-                  (fun _ _ => eq_refl) (fun _ _ => eq_refl) (fun _ _ => eq_refl) n (c_pres c)
+      pose proof (@loop_accept ftab env value set_validator l_validator l_args l_kwargs (fun _ => None)
+                  (fun _ _ => eq_refl) (fun _ _ => eq_refl) (fun _ _ => eq_refl) (fun _ _ => eq_refl) n (c_pres c)
                   (set_kwargs k (set_args a env0)) (dbg false w) w1 Hp) as H1.
       exists (after_loop set_validator (c_pres c) (set_kwargs k (set_args a env0))). repeat split.
       { rewrite (after_loop_a set_validator l_args (fun _ _ => eq_refl)). reflexivity. }
@@ -71,11 +71,11 @@ Section Gate.
 
     Theorem gate_sync_oof n a k w :
       debug (wst w) = true ->
-      run_pres n (c_pres c) a k (dbg false w) = OutOfFuel -> I n (run lf c a k) w = OutOfFuel.
+      run_pres n (c_pres c) a k None (dbg false w) = OutOfFuel -> I n (run lf c a k) w = OutOfFuel.
     Proof.
       intros Hd Hp. rewrite sync_head by exact Hd. unfold tail2. apply run_body_seq_oof. unfold stmt2.
       apply finally_oof. unfold s_for.
-      eapply loop_oof with (getv := l_validator) (geta := l_args) (getk := l_kwargs); try reflexivity. exact Hp.
+      eapply loop_oof with (getv := l_validator) (geta := l_args) (getk := l_kwargs) (gete := fun _ => None); try reflexivity. exact Hp.
     Qed.
 
     (* contracts disabled: the wrapper is exactly the original call; no validator, no patch event *)
@@ -121,13 +121,13 @@ Section Gate.
 
     Theorem gate_async_reject n a k w x w1 :
       debug (wst w) = true ->
-      run_pres n (c_pres c) a k (dbg false w) = Done (inr x) w1 ->
+      run_pres n (c_pres c) a k None (dbg false w) = Done (inr x) w1 ->
       I n (run lf c a k) w = Done (inr x) (dbg true w1).
     Proof.
       intros Hd Hp. rewrite async_head by exact Hd. unfold tail2.
       apply run_body_seq_raise. unfold stmt2.
       erewrite finally_done.
-      2:{ unfold s_for. eapply loop_reject with (getv := l_validator) (geta := l_args) (getk := l_kwargs); try reflexivity. exact Hp. }
+      2:{ unfold s_for. eapply loop_reject with (getv := l_validator) (geta := l_args) (getk := l_kwargs) (gete := fun _ => None); try reflexivity. exact Hp. }
       cbn beta iota.
       erewrite interp_bind_done.
       2:{ erewrite interp_in_handler_done by apply async_fin. reflexivity. }
@@ -136,13 +136,13 @@ Section Gate.
 
     Theorem gate_async_accept n a k w w1 :
       debug (wst w) = true ->
-      run_pres n (c_pres c) a k (dbg false w) = Done (inl tt) w1 ->
+      run_pres n (c_pres c) a k None (dbg false w) = Done (inl tt) w1 ->
       exists e1, l_args e1 = a /\ l_kwargs e1 = k /\
         I n (run lf c a k) w = I n (run_body (tail3 lf c) e1 VNone) (dbg true w1).
     Proof.
       intros Hd Hp. rewrite async_head by exact Hd. unfold tail2.
-      pose proof (@loop_accept ftab env value set_validator l_validator l_args l_kwargs
-                  (fun _ _ => eq_refl) (fun _ _ => eq_refl) (fun _ _ => eq_refl) n (c_pres c)
+      pose proof (@loop_accept ftab env value set_validator l_validator l_args l_kwargs (fun _ => None)
+                  (fun _ _ => eq_refl) (fun _ _ => eq_refl) (fun _ _ => eq_refl) (fun _ _ => eq_refl) n (c_pres c)
                   (set_kwargs k (set_args a env0)) (dbg false w) w1 Hp) as H1.
       exists (after_loop set_validator (c_pres c) (set_kwargs k (set_args a env0))). repeat split.
       { rewrite (after_loop_a set_validator l_args (fun _ _ => eq_refl)). reflexivity. }
@@ -154,11 +154,11 @@ Section Gate.
 
     Theorem gate_async_oof n a k w :
       debug (wst w) = true ->
-      run_pres n (c_pres c) a k (dbg false w) = OutOfFuel -> I n (run lf c a k) w = OutOfFuel.
+      run_pres n (c_pres c) a k None (dbg false w) = OutOfFuel -> I n (run lf c a k) w = OutOfFuel.
     Proof.
       intros Hd Hp. rewrite async_head by exact Hd. unfold tail2. apply run_body_seq_oof. unfold stmt2.
       apply finally_oof. unfold s_for.
-      eapply loop_oof with (getv := l_validator) (geta := l_args) (getk := l_kwargs); try reflexivity. exact Hp.
+      eapply loop_oof with (getv := l_validator) (geta := l_args) (getk := l_kwargs) (gete := fun _ => None); try reflexivity. exact Hp.
     Qed.
 
     (* contracts disabled: the wrapper is exactly the original call; no validator, no patch event *)
@@ -204,13 +204,13 @@ Section Gate.
 
     Theorem gate_iter_reject n a k w x w1 :
       debug (wst w) = true ->
-      run_pres n (c_pres c) a k (dbg false w) = Done (inr x) w1 ->
+      run_pres n (c_pres c) a k None (dbg false w) = Done (inr x) w1 ->
       I n (run lf c a k) w = Done (inr x) (dbg true w1).
     Proof.
       intros Hd Hp. rewrite iter_head by exact Hd. unfold tail2.
       apply run_body_seq_raise. unfold stmt2.
       erewrite finally_done.
-      2:{ unfold s_for. eapply loop_reject with (getv := l_validator) (geta := l_args) (getk := l_kwargs); try reflexivity. exact Hp. }
+      2:{ unfold s_for. eapply loop_reject with (getv := l_validator) (geta := l_args) (getk := l_kwargs) (gete := fun _ => None); try reflexivity. exact Hp. }
       cbn beta iota.
       erewrite interp_bind_done.
       2:{ erewrite interp_in_handler_done by apply iter_fin. reflexivity. }
@@ -219,13 +219,13 @@ Section Gate.
 
     Theorem gate_iter_accept n a k w w1 :
       debug (wst w) = true ->
-      run_pres n (c_pres c) a k (dbg false w) = Done (inl tt) w1 ->
+      run_pres n (c_pres c) a k None (dbg false w) = Done (inl tt) w1 ->
       exists e1, l_args e1 = a /\ l_kwargs e1 = k /\
         I n (run lf c a k) w = I n (run_body (tail3 lf c) e1 VNone) (dbg true w1).
     Proof.
       intros Hd Hp. rewrite iter_head by exact Hd. unfold tail2.
-      pose proof (@loop_accept ftab env value set_validator l_validator l_args l_kwargs
-                  (fun _ _ => eq_refl) (fun _ _ => eq_refl) (fun _ _ => eq_refl) n (c_pres c)
+      pose proof (@loop_accept ftab env value set_validator l_validator l_args l_kwargs (fun _ => None)
+                  (fun _ _ => eq_refl) (fun _ _ => eq_refl) (fun _ _ => eq_refl) (fun _ _ => eq_refl) n (c_pres c)
                   (set_kwargs k (set_args a env0)) (dbg false w) w1 Hp) as H1.
       exists (after_loop set_validator (c_pres c) (set_kwargs k (set_args a env0))). repeat split.
       { rewrite (after_loop_a set_validator l_args (fun _ _ => eq_refl)). reflexivity. }
@@ -237,11 +237,11 @@ Section Gate.
 
     Theorem gate_iter_oof n a k w :
       debug (wst w) = true ->
-      run_pres n (c_pres c) a k (dbg false w) = OutOfFuel -> I n (run lf c a k) w = OutOfFuel.
+      run_pres n (c_pres c) a k None (dbg false w) = OutOfFuel -> I n (run lf c a k) w = OutOfFuel.
     Proof.
       intros Hd Hp. rewrite iter_head by exact Hd. unfold tail2. apply run_body_seq_oof. unfold stmt2.
       apply finally_oof. unfold s_for.
-      eapply loop_oof with (getv := l_validator) (geta := l_args) (getk := l_kwargs); try reflexivity. exact Hp.
+      eapply loop_oof with (getv := l_validator) (geta := l_args) (getk := l_kwargs) (gete := fun _ => None); try reflexivity. exact Hp.
     Qed.
 
   End Iter.
